@@ -130,6 +130,43 @@ def compute():
                 kinds.append(0); vals.append(0)
     tabs['pciKindTable'] = (kinds, 1)
     tabs['pciValTable'] = (vals, 2)
+
+    # --- tpsock constants and one byte image per option struct (fake socket capturing setsockopt)
+    try:
+        import socket as real_socket
+        import isotp.tpsock
+        import isotp.tpsock.opts as om
+        fl = isotp.tpsock.flags
+        consts = [fl.LISTEN_MODE, fl.EXTEND_ADDR, fl.TX_PADDING, fl.RX_PADDING, fl.FORCE_TXSTMIN, fl.RX_EXT_ADDR,
+                  om.CAN_ISOTP_OPTS, om.CAN_ISOTP_RECV_FC, om.CAN_ISOTP_TX_STMIN, om.CAN_ISOTP_LL_OPTS, om.SOL_CAN_ISOTP,
+                  om.GeneralOpts.struct_size, om.FlowControlOpts.struct_size, om.LinkLayerOpts.struct_size]
+
+        class Cap(real_socket.socket):
+            def __init__(self):
+                self.calls = []
+
+            def getsockopt(self, level, opt, size=None):
+                return bytes(size or 0)
+
+            def setsockopt(self, level, opt, data):
+                self.calls.append((level, opt, bytes(data)))
+
+            def close(self):
+                pass
+
+            def __del__(self):
+                pass
+        c = Cap()
+        om.GeneralOpts.write(c, optflag=0x01020304, frame_txtime=0x05060708, ext_address=0x11, txpad=0x22, rxpad=0x33, rx_ext_address=0x44, tx_stmin=0x0A0B0C0D)
+        om.FlowControlOpts.write(c, bs=0x51, stmin=0x52, wftmax=0x53)
+        om.LinkLayerOpts.write(c, mtu=0x61, tx_dl=0x62, tx_flags=0x63)
+        img = []
+        for (level, opt, data) in c.calls:
+            img.extend([level, opt, len(data)] + list(data) + [0] * (12 - len(data)))
+        tabs['sockConstTable'] = (consts, 4)
+        tabs['sockImageTable'] = (img, 1)
+    except Exception as e:      # tpsock not importable here: the leaf will not build and says so
+        notes['sock_error'] = repr(e)
     return tabs, notes
 
 
